@@ -398,14 +398,16 @@ func (resp *Resp) next() error {
 					_ = hAuth.AddScope(h.config.Hostname, scope)
 				}
 				// add auth headers
-				err = hAuth.UpdateRequest(httpReq)
-				if err != nil {
-					if errors.Is(err, errs.ErrHTTPUnauthorized) {
-						dropHost = true
-					} else {
-						backoff = true
+				if h.authAllowed(&u) {
+					err = hAuth.UpdateRequest(httpReq)
+					if err != nil {
+						if errors.Is(err, errs.ErrHTTPUnauthorized) {
+							dropHost = true
+						} else {
+							backoff = true
+						}
+						return err
 					}
-					return err
 				}
 			}
 
@@ -818,10 +820,14 @@ func (ch *clientHost) checkRedirect(repo string, orig func(req *http.Request, vi
 			req.Header.Del("Authorization")
 		}
 		// add auth headers if appropriate for the target host
-		hAuth := ch.getAuth(repo)
-		err := hAuth.UpdateRequest(req)
-		if err != nil {
-			return err
+		if ch.authAllowed(req.URL) {
+			hAuth := ch.getAuth(repo)
+			err := hAuth.UpdateRequest(req)
+			if err != nil {
+				return err
+			}
+		} else {
+			req.Header.Del("Authorization")
 		}
 		// wrap original redirect check
 		if orig != nil {
@@ -829,6 +835,13 @@ func (ch *clientHost) checkRedirect(repo string, orig func(req *http.Request, vi
 		}
 		return nil
 	}
+}
+
+// authAllowed reports whether credentials may be attached to a request for the url.
+// Credentials of a registry configured for TLS are never sent in clear text to that registry,
+// e.g. after a redirect or with an external layer URL that uses the http scheme.
+func (ch *clientHost) authAllowed(u *url.URL) bool {
+	return u.Scheme != "http" || u.Host != ch.config.Hostname || ch.config.TLS == config.TLSDisabled
 }
 
 // getAuth returns an auth, which may be repository specific.
